@@ -874,9 +874,24 @@ pub fn damaged_variants(
     kind: RKind,
     n: usize,
 ) -> Vec<Vec<u8>> {
+    damaged_variants_full(base, cfg, aux, kind, n)
+        .into_iter()
+        .map(|v| v.0)
+        .collect()
+}
+
+/// Like `damaged_variants`; a truncated variant also carries the (damaged)
+/// stream as it was before the cut.
+pub fn damaged_variants_full(
+    base: &[u8],
+    cfg: &mut Rng,
+    aux: &mut Rng,
+    kind: RKind,
+    n: usize,
+) -> Vec<(Vec<u8>, Option<Vec<u8>>)> {
     let flips_on = cfg.bool();
     let trunc_on = cfg.bool() || !flips_on;
-    let mut out = vec![base.to_vec()];
+    let mut out = vec![(base.to_vec(), None)];
     for _ in 0..n {
         let mut s = base.to_vec();
         let mut did = false;
@@ -914,12 +929,16 @@ pub fn damaged_variants(
             }
             did = true;
         }
+        let mut full = None;
         if trunc_on && (!did || aux.chance(1, 3)) {
             let cut = aux.usize_range(0, s.len());
+            if cut < s.len() {
+                full = Some(s.clone());
+            }
             s.truncate(cut);
         }
         let _ = kind;
-        out.push(s);
+        out.push((s, full));
     }
     out
 }
@@ -999,10 +1018,10 @@ pub fn run_c06(seed: u64, run: u64, stats: &mut Stats) -> Vec<Violation> {
     let size = pick_size(&mut cfg);
     let chunk_seed = mix(&[rs, 4]);
     let (op, base) = gen_reader_input(kind, &mut g, size, &mut cfg);
-    let variants = damaged_variants(&base, &mut cfg, &mut aux, kind, 10);
+    let variants = damaged_variants_full(&base, &mut cfg, &mut aux, kind, 10);
     let mut out = Vec::new();
     let mut evals = 0u64;
-    for (vi, mut stream) in variants.into_iter().enumerate() {
+    for (vi, (mut stream, mut full)) in variants.into_iter().enumerate() {
         if kind.first_byte_is_param() {
             if stream.is_empty() {
                 continue;
@@ -1011,8 +1030,22 @@ pub fn run_c06(seed: u64, run: u64, stats: &mut Stats) -> Vec<Violation> {
             // already seen the version nibble
             let v = if kind == RKind::V4NoVersion { 4 } else { 6 };
             stream[0] = (stream[0] & 0x0f) | (v << 4);
+            if let Some(f) = full.as_mut() {
+                f[0] = (f[0] & 0x0f) | (v << 4);
+            }
         }
         let slice_len = announced_slice(kind, &op, &mut stream, &mut aux);
+        // the stream a content error reported on a short input is checked
+        // against: the uncut stream (length-limited readers: the stream
+        // itself, which the limit cuts); not for IpHeaders, whose slice is
+        // defined by the announced length
+        let full: Option<Vec<u8>> = if kind == RKind::Ip {
+            None
+        } else if kind.is_limited() {
+            Some(full.unwrap_or_else(|| stream.clone()))
+        } else {
+            full
+        };
         let sd = fnv64(&stream);
         for c in [
             Chunking::Whole,
@@ -1025,8 +1058,9 @@ pub fn run_c06(seed: u64, run: u64, stats: &mut Stats) -> Vec<Violation> {
                 stream: stream.clone(),
                 slice_len,
                 chunking: c,
+                full: full.clone(),
             };
-            match traced(|| case.clone(), || check_cmp(&op, &stream, slice_len, c)) {
+            match traced(|| case.clone(), || check_cmp(&op, &stream, slice_len, c, full.as_deref())) {
                 Ok(o) => {
                     stats.add(&format!("c06.outcome.{}", o.class), 1);
                     if let Some(eq) = o.len_fields_equal {
@@ -1058,6 +1092,7 @@ pub fn run_c06(seed: u64, run: u64, stats: &mut Stats) -> Vec<Violation> {
                     stream: stream.clone(),
                     slice_len,
                     chunking: Chunking::One,
+                    full: full.clone(),
                 }
                 .to_json(),
             );
